@@ -58,6 +58,8 @@ def equal(a, b):
     if set(A) != set(B):
         return False
     for k in A:
+        if k == "const" and B[k] == "?":
+            continue  # the model makes no prediction (see Drv/C16.lean: more taps than binary32 carries exactly)
         if k != "plan" and A[k] != B[k]:
             return False
     pa, pb = A.get("plan", ""), B.get("plan", "")
